@@ -129,7 +129,7 @@ RowMatrix<size_t> ContingencyTableGenerator::rcont2()
       /* Compute conditional expected value of MATRIX(L, M) */
 
       {
-        nlm = ia * static_cast<size_t>((static_cast<long double>(id) / static_cast<long double>(ie)) + 0.5);
+        nlm = static_cast<size_t>(static_cast<long double>(ia) * (static_cast<long double>(id) / static_cast<long double>(ie)) + 0.5);
 #ifdef BPP_CORE_VERIF
         if (verifFirst)
         {
